@@ -109,6 +109,15 @@ def observe(cfg, xs):
             same = (float(p2) == obs["p"] or (p2 != p2 and obs["p"] != obs["p"])) and len(h2) == len(obs["hist"]) and all(
                 a == b or (a != a and b != b) for a, b in zip(h2, obs["hist"]))
             obs["stateful"] = not same
+            # ... nor from the evaluation of another sample (here: the same draws in reverse order, i.e. same length and total)
+            if n >= 2 and any(a != b for a, b in zip(x, x[::-1])):
+                nm3 = make(cfg)
+                nm3.test(x[::-1].copy())
+                p7, h7 = nm3.test(x.copy())
+                h7 = [float(v) for v in np.asarray(h7, dtype=float).ravel()]
+                if not ((float(p7) == obs["p"] or (p7 != p7 and obs["p"] != obs["p"])) and len(h7) == len(obs["hist"]) and all(
+                        a == b or (a != a and b != b) for a, b in zip(h7, obs["hist"]))):
+                    obs["stateful"] = True
             # the Audit code builds tests first and installs u later (test.u = ...): same answer required.  Only where the
             # constructor derives nothing else from u (an explicit eta, or an estimator/bet that reads u when called)
             if "eta" in cfg.get("kw", {}) or cfg.get("estim") in ("shrink_trunc", "optimal_comparison") or cfg["test"] not in ("alpha_mart", "wald_sprt"):
@@ -319,6 +328,10 @@ def long_configs(tier):
         for test, estim, bet, kw in (("betting_mart", None, "fixed_bet", {"lam": "1"}), ("kaplan_markov", None, None, {"g": "1/8"}), ("kaplan_wald", None, None, {"g": "1/8"})):
             out.append({"test": test, "estim": estim, "bet": bet, "kw": kw, "u": "1", "t": "1/2", "N": None, "H": 120, "k": 2, "D": 120,
                         "paths": ["tworun", 120], "ro": True})
+    # a small null mean and no padding: one zero annihilates the Kaplan statistics for good, and a handful of later large
+    # values is all it would take to bring an improperly kept product back
+    for test in ("kaplan_markov", "kaplan_wald"):
+        out.append({"test": test, "estim": None, "bet": None, "kw": {"g": 0}, "u": "1", "t": "1/128", "N": None, "H": L, "k": 2, "D": L, "paths": [1, L], "ro": True})
     for u, t in ((("1", "1/2"), ("5/4", "1/2")) if tier == "quick" else (("1", "1/2"), ("5/4", "1/2"), ("2", "1/2"))):
         for finite in (True, False):
             for test, estim, bet, kw in _methods(u, t, finite, "quick"):
@@ -351,6 +364,11 @@ def bign_configs(tier):
                                          ("alpha_mart", "shrink_trunc", None, {}), ("alpha_mart", "shrink_trunc", None, {"eta": str(fr(u) - fr("1/256")), "d": 2}),
                                          ("betting_mart", None, "agrapa", {"lam": "1/2"}), ("wald_sprt", None, None, {"eta": str(fr(u) - fr("1/256"))})):
                 out.append({"test": test, "estim": estim, "bet": bet, "kw": kw, "u": u, "t": t, "N": N, "H": None, "k": 2, "D": 5 if tier == "quick" else 7, "ro": True})
+    # a million cards and an alternative two millionths below the bound: one draw of 0 lifts the updated alternative above u
+    # by less than a millionth (clipping must be exact, not "up to a tolerance")
+    for test, estim, kw in (("alpha_mart", "fixed_alternative_mean", {"eta": "2097151/2097152"}), ("alpha_mart", None, {"eta": "2097151/2097152"}),
+                            ("wald_sprt", None, {"eta": "2097151/2097152"})):
+        out.append({"test": test, "estim": estim, "bet": None, "kw": kw, "u": "1", "t": "1/2", "N": 10 ** 6, "H": None, "k": 2, "D": 5 if tier == "quick" else 7, "ro": True})
     return out
 
 
